@@ -48,6 +48,15 @@ class Transport(object):
     def cutoff(self, obj):
         return obj.cutoff
 
+    def queue(self, obj, m):
+        obj.tx(m)
+
+    def txq(self, obj):
+        return obj.txes
+
+    def rxb(self, obj):
+        return obj.rxbs
+
 
 _REAL_WL = []
 
@@ -74,6 +83,29 @@ class TClient(Transport):
     def make(self, wlog):
         obj, fake = client_on_double(tls=self.tls, wlog=wlog)
         return obj, fake, PEER
+
+
+class TClientShared(TClient):
+    """the caller hands the client its own (still empty) transmit queue and receive buffer -- the documented `txes=` /
+    `rxbs=` options, as a stack does that shares one receive buffer with its handler -- and works through those"""
+    name = "ClientSharedBuffers"
+    base = "Client"
+
+    def make(self, wlog):
+        import collections
+        txes, rxbs = collections.deque(), bytearray()
+        obj, fake = client_on_double(tls=self.tls, wlog=wlog, txes=txes, rxbs=rxbs)
+        obj._vf_txes, obj._vf_rxbs = txes, rxbs
+        return obj, fake, PEER
+
+    def queue(self, obj, m):
+        obj._vf_txes.append(m)
+
+    def txq(self, obj):
+        return obj._vf_txes
+
+    def rxb(self, obj):
+        return obj._vf_rxbs
 
 
 class TClientTls(TClient):
@@ -112,7 +144,7 @@ class TDriver(Transport):
         return False
 
 
-TRANSPORTS = {t.name: t for t in (TClient(), TClientTls(), TIncomer(), TIncomerTls(), TDriver())}
+TRANSPORTS = {t.name: t for t in (TClient(), TClientShared(), TClientTls(), TIncomer(), TIncomerTls(), TDriver())}
 
 
 def configs(maxm, maxl):
@@ -143,7 +175,7 @@ class Wires(object):
 
 def check_tx_state(ctx, T, obj, fake, wires, queued, addr, wit, final=False):
     acc = fake.accepted
-    rem = b"".join(bytes(d) for d in obj.txes)
+    rem = b"".join(bytes(d) for d in T.txq(obj))
     ok = True
     if not queued.startswith(acc):
         ok = ctx.check(False, "%s/tx/accepted-bytes-not-a-prefix-of-queued" % T.name,
@@ -189,7 +221,7 @@ def run_tx_case(ctx, T, lens, stagger, script, rng=None, kind="enum"):
 
     if not stagger:
         for m in msgs:
-            obj.tx(m)
+            T.queue(obj, m)
             queued += m
         qi = len(msgs)
     cap = len(script) + len(msgs) + 3
@@ -197,7 +229,7 @@ def run_tx_case(ctx, T, lens, stagger, script, rng=None, kind="enum"):
     cut_at = None
     while calls < cap:
         if stagger and qi < len(msgs):
-            obj.tx(msgs[qi])
+            T.queue(obj, msgs[qi])
             queued += msgs[qi]
             qi += 1
         nsend = fake.calls.get("send", 0)
@@ -223,15 +255,15 @@ def run_tx_case(ctx, T, lens, stagger, script, rng=None, kind="enum"):
             cut_at = calls
         if not check_tx_state(ctx, T, obj, fake, wires, queued, addr, wit):
             return
-        if cut_at is None and qi == len(msgs) and not obj.txes:
+        if cut_at is None and qi == len(msgs) and not T.txq(obj):
             break
         if cut_at is not None and calls >= cut_at + 2:
             break
     if cut_at is None:
-        ctx.check(not obj.txes and fake.accepted == queued and qi == len(msgs),
+        ctx.check(not T.txq(obj) and fake.accepted == queued and qi == len(msgs),
                   "%s/tx/not-drained" % T.name,
                   "%s: queue did not drain although every further send accepted everything" % T.name,
-                  wit(fake.accepted, b"".join(bytes(d) for d in obj.txes)))
+                  wit(fake.accepted, b"".join(bytes(d) for d in T.txq(obj))))
     check_tx_state(ctx, T, obj, fake, wires, queued, addr, wit, final=True)
 
 
@@ -271,8 +303,8 @@ def run_rx_case(ctx, T, shape, rng=None):
         ctx.event(fake.calls.get(op, 0) - before)
         dl = fake.delivered
         wit = lambda: {"class": T.name, "recv_results": [(i[1].hex() if i[0] == "data" else item_name(i)) for i in script],
-                       "delivered": dl.hex(), "rxbs": bytes(obj.rxbs).hex(), "steps": log}
-        if not ctx.check(bytes(obj.rxbs) == dl, "%s/rx/rxbs-differs-from-received-chunks" % T.name,
+                       "delivered": dl.hex(), "rxbs": bytes(T.rxb(obj)).hex(), "steps": log}
+        if not ctx.check(bytes(T.rxb(obj)) == dl, "%s/rx/rxbs-differs-from-received-chunks" % T.name,
                          "%s: rxbs is not the concatenation of the received chunks in arrival order" % T.name, wit):
             return
         if not T.serial:
